@@ -1,9 +1,12 @@
 """C20 — Packet lifetime and hop budget on the wire honour the request.
 
-Theorems: lean/Props/C20.lean about lean/FlexModel/Geo/LT.lean.
+Theorems: lean/Props/C20.lean: the model lean/FlexModel/Geo/LT.lean meets the Spec lean/FlexModel/Geo/LTSpec.lean
+(written from EN 302 636-4-1 9.6.4 / 10.3 and the property text, no model function in it).
 Tie: differential correspondence of the model with (a) LT.set_value_in_millis, (b)
-BasicHeader.initialize_with_mib_request_and_rhl (float seconds glue included), (c) packets emitted by a real
-Router for every transport type, (d) BasicHeader.decode_from_bytes / indications of a receiving Router.
+BasicHeader.initialize_with_mib_request_and_rhl (float seconds glue included, fractional milliseconds too), (c) packets
+emitted by a real Router for every transport type (GUC also through the location service: request buffered, released
+by the LS reply), (d) BasicHeader.decode_from_bytes, (e) the remaining lifetime / hop limit in the GN-DATA.indication of
+all five indication sites (SHB, TSB, GBC, GAC, GUC) for a sweep of LT octets, (f) the receiver guard.
 Oracle: independent transcription of the property text (`oracle_*` below) applied to the REAL outputs.
 """
 from __future__ import annotations
@@ -25,27 +28,23 @@ import os as _os
 import common as _common
 
 
-def _bridge_available():
-    """Props.C20Bridge is an obligation only when py2lean could translate the current source
-    (otherwise the run records `extract-skipped` and relies on correspondence alone)"""
-    try:
-        import gen_lean
-        gen_lean.generate_all()
-        txt = open(_os.path.join(_common.LEAN, "Generated", "Extracted.lean")).read()
-        return "extract-skipped" not in txt and "def LT_set_value_in_millis" in txt
-    except Exception:
-        return False
-
-
-MODULES = ["Props.C20"] + (["Props.C20Bridge"] if _bridge_available() else [])
+MODULES = ["Props.C20"] + __import__("gen_extract").bridge_modules("C20")   # + bridge lemmas of the functions py2lean could extract
 DRIVERS = ["LT"]
+# bridge modules that are obligations of a run when py2lean can translate the current source; if one is missing from
+# MODULES the run relies on correspondence alone for that family - recorded LOUDLY in the evidence (run(): bridge_report)
+EXPECTED_BRIDGES = ["Props.C20Bridge", "Props.C02BridgeBasic"]
 TRUSTED = [
     "modelled rather than verified: the float glue int(max_packet_lifetime*1000) (covered by running every integer "
     "millisecond request through the real API); the Router's packet assembly is compared on emitted bytes",
 ]
 ASSUMPTIONS = [
     "requests are given as integer milliseconds ms and passed to the API as ms/1000.0 seconds",
-    "known finding C20-KF1: requests >= 1 000 000 ms are written as lifetime 0 (pinned by the repository's unit test)",
+    "known finding C20-KF1: requests >= 1 000 000 ms are written as lifetime 0 (pinned by the repository's unit test); "
+    "itsGnMaxPacketLifetime (600 s) is enforced nowhere in /repo, so that band is reachable through GNDataRequest.max_packet_lifetime",
+    "interface convention (property text): request.max_hop_limit 0 and 1 mean 'not specified' -> itsGnDefaultHopLimit "
+    "(Lean: LTSpec.requestedHops); a multi-hop request can therefore not ask for hop limit 1",
+    "secured packets (basic-header NH = 2): the hop guard and the indication are reached only after the verify service (C03/C05); "
+    "one secured SHB origination is exercised, the receive side is not",
 ]
 
 UNITS = (50, 1000, 10000, 100000)
@@ -147,6 +146,38 @@ def check_lifetimes(ctx, capped, values):
                             "real": list(reals[len(reals) // 3][1]) if reals else None})
 
 
+def check_fractional(ctx, capped):
+    """requests that are not an integer number of milliseconds (float seconds through the API): the written lifetime must not
+    exceed the request and must be the greatest representable value not exceeding it (= not exceeding floor(ms))"""
+    import math
+    mib = MIB()
+    rng = ctx.rng
+    reqs = [49.5, 50.5, 99.999, 100.25, 999.5, 1000.5, 3149.9, 3150.1, 62999.5, 63000.5, 629999.5, 630000.75]
+    reqs += [rng.randrange(0, 700000) + rng.choice([0.1, 0.25, 0.5, 0.75, 0.9]) for _ in range(ctx.scale(150, 3000))]
+    lines, reals = [], []
+    for ms in reqs:
+        bh = BasicHeader.initialize_with_mib_request_and_rhl(mib, ms / 1000.0, 1)
+        r = (bh.lt.multiplier, bh.lt.base.value, bh.lt.get_value_in_millis(), bh.encode_to_bytes()[2])
+        ctx.evals()
+        bad = []
+        if r[2] > ms:
+            bad.append("exceeds-request")
+        if r[2] != greatest_representable(math.floor(ms)):
+            bad.append("not-largest-representable")
+        if ms >= 50 and r[2] == 0:
+            bad.append("zero-for-request>=50ms")
+        if bad:
+            ctx.violation(f"lifetime request {ms} ms -> {r[2]} ms on the wire ({','.join(bad)}) via api",
+                          {"kind": "lifetime_f", "ms": ms}, classify_lifetime(ms, bad))
+        reals.append((ms, r))
+        lines.append(f"set {capped} {math.floor(ms)}")
+    ctx.cover("lifetime_fractional_ms", len(reqs))
+    if ctx.model_ok:
+        for (ms, r), mo in zip(reals, ctx.model("LT", lines)):
+            if tuple(int(x) for x in mo.split()) != r:
+                ctx.mismatch("lt.api.fractional", ms, list(r), mo)
+
+
 def check_codes(ctx):
     lines, reals = [], []
     for code in range(256):
@@ -183,7 +214,13 @@ class _NoTimer:
         pass
 
 
-TRANSPORTS = ["beacon", "shb", "gbc", "gac", "guc", "ls_request", "ls_reply"]
+# guc_ls = GUC to a destination the location table does not know: LS request, request buffered, LS reply, buffered
+# request released from `_ls_packet_buffers` through gn_data_request_guc
+TRANSPORTS = ["beacon", "shb", "gbc", "gac", "guc", "guc_ls", "ls_request", "ls_reply"]
+MODEL_T = {"guc_ls": "guc"}
+REQUEST_BUILT = ("shb", "gbc", "gac", "guc", "guc_ls")     # lifetime / hop limit come from the GN-DATA.request
+GUARD_TRANSPORTS = ["beacon", "shb", "tsb", "gbc", "gac", "guc", "ls_request", "ls_reply"]
+IND_SITES = ["shb", "tsb", "gbc", "gac", "guc"]            # the five GN-DATA.indication sites of the Router
 
 
 def emit(transport, req_hl, dflt_hl, req_ms, dflt_life_s, clock):
@@ -216,6 +253,32 @@ def emit(transport, req_hl, dflt_hl, req_ms, dflt_life_s, clock):
                 upper_protocol_entity=CommonNH.BTP_B, data=b"ab", length=2,
                 packet_transport_type=PacketTransportType(header_type=HeaderType.GEOUNICAST, header_subtype=HeaderSubType.UNSPECIFIED),
                 destination=peer, max_hop_limit=req_hl, max_packet_lifetime=life))
+        elif transport == "guc_ls":
+            peer = rs.gn_addr(2)
+            r.ego_position_vector = LongPositionVector(gn_addr=r.mib.itsGnLocalGnAddr, tst=now_tst, latitude=415000000,
+                                                       longitude=21000000, pai=True)
+            r.gn_data_request(GNDataRequest(
+                upper_protocol_entity=CommonNH.BTP_B, data=b"ab", length=2,
+                packet_transport_type=PacketTransportType(header_type=HeaderType.GEOUNICAST, header_subtype=HeaderSubType.UNSPECIFIED),
+                destination=peer, max_hop_limit=req_hl, max_packet_lifetime=life))
+            first = ll.take()                       # the LS request (judged as `ls_request`); the GUC request waits
+            r2, ll2, _ = rs.make_router(2)
+            r2.ego_position_vector = LongPositionVector(gn_addr=r2.mib.itsGnLocalGnAddr, tst=now_tst,
+                                                        latitude=415001000, longitude=21001000, pai=True)
+            if len(first) == 1 and first[0][5] == 0x60:
+                r2.gn_data_indicate(first[0])
+                for rep in ll2.take():
+                    r.gn_data_indicate(rep)     # LS reply: the buffered request goes out as a GUC packet
+        elif transport == "tsb":
+            # no source operation for TSB multi-hop in the Router (NotImplementedError): receive-side tests build the packet
+            # from an SHB packet: HST 1, SN + reserved in front of the SO PV, no media-dependent octets
+            r.gn_data_request(GNDataRequest(upper_protocol_entity=CommonNH.BTP_B, data=b"ab", length=2,
+                                            max_hop_limit=req_hl, max_packet_lifetime=life))
+            shb = ll.take()[0]
+            hdr = bytearray(shb[:12])
+            hdr[5] = 0x51
+            hdr[3] = hdr[10] = max(2, dflt_hl)
+            return bytes(hdr) + b"\x00\x07\x00\x00" + shb[12:36] + shb[40:]
         elif transport == "ls_request":
             r.gn_ls_request(rs.gn_addr(3))
         elif transport == "ls_reply":
@@ -234,7 +297,9 @@ def oracle_hops(transport, req_hl, dflt_hl, rhl, mhl):
     bad = []
     if rhl != mhl:
         bad.append("rhl!=mhl")
-    if transport in ("gbc", "gac", "guc"):
+    if transport in ("gbc", "gac", "guc", "guc_ls"):
+        # EN 302 636-4-1 10.3.x: MHL = the request's maximum hop limit if specified, else itsGnDefaultHopLimit;
+        # interface convention of the property text: "the requested limit when above 1, else the MIB default"
         want = req_hl if req_hl > 1 else dflt_hl
     else:
         want = dflt_hl
@@ -247,19 +312,19 @@ def check_router(ctx, capped, clock):
     cases = []
     if ctx.thorough:
         hls = list(range(256))
-        dflts = [1, 2, 10, 255]
+        dflts = [0, 1, 2, 10, 255]
     else:
         hls = [0, 1, 2, 3, 9, 10, 11, 127, 128, 254, 255] + [ctx.rng.randrange(256) for _ in range(6)]
-        dflts = [1, 10, 255]
+        dflts = [0, 1, 10, 255]
     for t in TRANSPORTS:
         for d in dflts:
-            for h in (hls if t in ("gbc", "gac", "guc", "shb") else [1]):
+            for h in (hls if t in REQUEST_BUILT else [1]):
                 cases.append((t, h, d, None, 60))
     # lifetimes through the router: requested and MIB default
     life_ms = [0, 49, 50, 99, 100, 499, 500, 700, 999, 1000, 1999, 60000, 600000, 630000, 999999, 1000000, 7000000]
     life_ms += [ctx.rng.randrange(0, 700001) for _ in range(ctx.scale(20, 400))]
     dflt_s = [0, 1, 59, 60, 63, 64, 100, 600, 630, 631, 700, 999, 1000] + ([] if not ctx.thorough else list(range(0, 701)))
-    for t in ("shb", "gbc", "gac", "guc"):
+    for t in REQUEST_BUILT:
         for ms in life_ms:
             cases.append((t, 5, 10, ms, 60))
     for t in TRANSPORTS:
@@ -276,8 +341,8 @@ def check_router(ctx, capped, clock):
         rhl, mhl = pkt[3], pkt[4 + 6]
         lt_ms = bh.lt.get_value_in_millis()
         recs.append(((t, h, d, ms, s), rhl, mhl, pkt[2], lt_ms))
-        hop_lines.append(f"hops {t} {h} {d}")
-        want_ms = ms if (ms is not None and t in ("shb", "gbc", "gac", "guc")) else s * 1000
+        hop_lines.append(f"hops {MODEL_T.get(t, t)} {h} {d}")
+        want_ms = ms if (ms is not None and t in REQUEST_BUILT) else s * 1000
         life_lines.append(f"set {capped} {want_ms}")
         bad = oracle_hops(t, h, d, rhl, mhl)
         if bad:
@@ -323,7 +388,7 @@ def check_guard(ctx, clock):
     if ctx.thorough:
         pairs = [(r, m) for r in range(256) for m in range(0, 256, 5)]
     lines, reals = [], []
-    for t in TRANSPORTS:
+    for t in GUARD_TRANSPORTS:
         pkt = emit(t, 5, 10, 3000, 60, clock)
         sub = pairs if t == "shb" or ctx.thorough else pairs[::3]
         for rhl, mhl in sub:
@@ -341,8 +406,8 @@ def check_guard(ctx, clock):
                 if ind.remaining_hop_limit != rhl:
                     ctx.violation(f"indication reports hop limit {ind.remaining_hop_limit}, wire {rhl}",
                                   {"kind": "guard", "transport": t, "rhl": rhl, "mhl": mhl})
-                if ind.remaining_packet_lifetime * 1000 > 3000:
-                    ctx.violation(f"indication lifetime {ind.remaining_packet_lifetime}s exceeds wire 3000 ms",
+                if ind.remaining_packet_lifetime * 1000 > (pkt[2] >> 2) * UNITS[pkt[2] & 3]:
+                    ctx.violation(f"indication lifetime {ind.remaining_packet_lifetime}s exceeds the wire lifetime",
                                   {"kind": "guard", "transport": t, "rhl": rhl, "mhl": mhl})
             lines.append(f"guard {rhl} {mhl}")
             reals.append(((t, rhl, mhl), "1" if processed else "0"))
@@ -353,13 +418,148 @@ def check_guard(ctx, clock):
                 ctx.mismatch("guard", list(inp), r, mo)
 
 
+def make_receiver(clock):
+    """receiver that delivers every packet of emit(): address 2 (destination of the GUC packets), inside the 100-unit circle
+    of the GBC / GAC packets"""
+    rx, ll, inds = rs.make_router(2)
+    rx.ego_position_vector = LongPositionVector(gn_addr=rx.mib.itsGnLocalGnAddr,
+                                                tst=TST.set_in_normal_timestamp_milliseconds(clock.ms),
+                                                latitude=415000010, longitude=21000010, pai=True)
+    return rx, ll, inds
+
+
+def indication_of(pkt, code, clock):
+    frame = bytearray(pkt)
+    frame[2] = code
+    rx, ll, inds = make_receiver(clock)
+    with rs.quiet():
+        rx.gn_data_indicate(bytes(frame))
+    return inds
+
+
+def ind_codes(ctx):
+    if ctx.thorough:
+        return list(range(256))
+    mults = [0, 1, 2, 19, 20, 21, 39, 40, 41, 59, 60, 61, 63] + [ctx.rng.randrange(64) for _ in range(3)]
+    return sorted({m << 2 | b for m in mults for b in range(4)})
+
+
+def judge_indication(site, code, inds, rhl):
+    """property text: the remaining lifetime reported upward never exceeds the lifetime on the wire (octet read by the
+    standard's table, independent of the code)"""
+    wire_ms = (code >> 2) * UNITS[code & 3]
+    if len(inds) != 1:
+        return [f"{site}: {len(inds)} indications for a deliverable packet with LT octet {code:#04x}"], None
+    ind = inds[0]
+    bad = []
+    rep = ind.remaining_packet_lifetime
+    if rep is None or rep * 1000 > wire_ms:
+        bad.append(f"{site}: indication reports remaining lifetime {rep} s, the packet carries {wire_ms} ms (LT octet {code:#04x})")
+    if ind.remaining_hop_limit != rhl:
+        bad.append(f"{site}: indication reports hop limit {ind.remaining_hop_limit}, wire {rhl}")
+    return bad, rep
+
+
+def check_indication(ctx, clock):
+    """all five indication sites x a sweep of LT octets (non-whole-second lifetimes included: a round()/ceil at one call
+    site would report more than the packet carries)"""
+    codes = ind_codes(ctx)
+    lines, reals = [], []
+    for site in IND_SITES:
+        pkt = emit(site, 5, 10, 3000, 60, clock)
+        for code in codes:
+            inds = indication_of(pkt, code, clock)
+            ctx.evals()
+            ctx.nontrivial(("ind", site, code))
+            bad, rep = judge_indication(site, code, inds, pkt[3])
+            for w in bad:
+                ctx.violation(w, {"kind": "ind", "site": site, "code": code})
+            if rep is not None:
+                canon = str(int(rep)) if float(rep).is_integer() else repr(rep)
+                lines.append(f"ind {code}")
+                reals.append(((site, code), canon))
+        ctx.cover(f"indication_{site}", len(codes))
+    if ctx.model_ok:
+        for (inp, r), mo in zip(reals, ctx.model("LT", lines)):
+            if r != mo:
+                ctx.mismatch("indication.lifetime", list(inp), r, mo)
+
+
+def check_secured_shb(ctx, clock):
+    """one security-enabled origination: the basic header (LT, RHL) stays outside the envelope and must honour the request
+    exactly as for unsecured packets; MHL is read from the verified plain message at a receiving station"""
+    try:
+        import sec_common as sc
+        from flexstack.security.security_profiles import SecurityProfile
+        now = sc.its_now_s(clock.ms)
+        live = dict(start=now - 1000, duration=("hours", 100))
+        p = sc.PKI()
+        root = p.root("root", **live)
+        aa = p.issue(root, "aa", issue=[sc.perm_all(1)], **live)
+        at = p.issue(aa, app=[36], **live)
+        with rs.quiet():
+            tx = sc.RouterStation(p.backend, 1, [root], [aa], [], own=[at])
+            rx = sc.RouterStation(p.backend, 2, [root], [aa], [], lat=415000100, lon=21000100)
+            tx.set_position(clock.ms)
+            rx.set_position(clock.ms)
+            tx.router.gn_data_request(GNDataRequest(
+                upper_protocol_entity=CommonNH.BTP_B, data=b"cam", length=3, max_hop_limit=7, max_packet_lifetime=1.999,
+                security_profile=SecurityProfile.COOPERATIVE_AWARENESS_MESSAGE, its_aid=36))
+            sent = tx.ll.take()
+            out = rx.receive(sent[0]) if len(sent) == 1 else None
+    except Exception as e:  # noqa: BLE001  (sec_common belongs to another builder: a changed helper must not fail C20)
+        ctx.note(f"secured SHB scenario skipped: {type(e).__name__}: {e}")
+        ctx.cover("secured_shb_skipped")
+        return
+    ctx.evals()
+    case = {"kind": "secured_shb"}
+    if len(sent) != 1 or sent[0][0] & 15 != 2:
+        ctx.note(f"secured SHB scenario: {len(sent)} packets / basic-header NH {sent[0][0] & 15 if sent else '-'}: not a secured packet, skipped")
+        ctx.cover("secured_shb_skipped")
+        return
+    pkt = sent[0]
+    lt_ms = (pkt[2] >> 2) * UNITS[pkt[2] & 3]
+    bad = oracle_lifetime(1999, lt_ms)
+    if bad:
+        ctx.violation(f"secured shb: lifetime {lt_ms} ms on the wire for request 1999 ms ({','.join(bad)})", case)
+    if pkt[3] != 1:
+        ctx.violation(f"secured shb: RHL {pkt[3]} on the wire, single-hop packets carry 1", case)
+    gate = out[1] if out else []
+    if gate and gate[0][6] != 1:
+        ctx.violation(f"secured shb: MHL {gate[0][6]} inside the signed common header, single-hop packets carry 1", case)
+    inds = out[2] if out else []
+    if inds and (inds[0].remaining_packet_lifetime * 1000 > lt_ms or inds[0].remaining_hop_limit != 1):
+        ctx.violation(f"secured shb: indication reports {inds[0].remaining_packet_lifetime} s / hop limit "
+                      f"{inds[0].remaining_hop_limit}; wire {lt_ms} ms / 1", case)
+    ctx.cover("secured_shb" + ("_verified" if gate else "_unverified"))
+
+
+def bridge_report(ctx):
+    """make the loss of a bridge obligation visible: evidence field + note + histogram key (the run then relies on the
+    differential correspondence alone for the functions of that family)"""
+    active = [m for m in MODULES if m != "Props.C20"]
+    dropped = [m for m in EXPECTED_BRIDGES if m not in MODULES]
+    ctx.extra["bridge_obligations"] = {"expected": EXPECTED_BRIDGES, "active": active, "dropped": dropped}
+    for m in dropped:
+        msg = (f"BRIDGE-DROPPED {m}: py2lean could not translate the current source (see `extraction`); the equality "
+               f"'extracted function = model' is NOT a proof obligation of this run - correspondence only")
+        ctx.note(msg)
+        print(msg)
+        ctx.cover("bridge_dropped:" + m)
+    for m in active:
+        ctx.cover("bridge_active:" + m)
+    return dropped
+
+
 def run(ctx):
     ctx.extra["rule"] = ("lifetimes: integer-ms requests through LT.set_value_in_millis and the BasicHeader API "
                          "(thorough: every ms 0..7 000 000); all 256 lifetime codes; hop limits 0..255 x MIB defaults x 7 "
                          "transports through a real Router; receiver guard pairs. distinct_nontrivial counts distinct "
                          "(multiplier,base) results, codes, router cases and guard pairs")
     capped = detect_capped()
-    ctx.extra["extraction"] = "bridged (Props.C20Bridge)" if "Props.C20Bridge" in MODULES else "extract-skipped"
+    dropped = bridge_report(ctx)
+    ctx.extra.setdefault("extraction", {})["C20"] = ("bridged (" + ", ".join(m for m in MODULES if m != "Props.C20") + ")"
+                                                     + ("; DROPPED: " + ", ".join(dropped) if dropped else ""))
     ctx.extra["variant"] = {"C20-KF1": "capped (code as is)" if capped else "uncapped (repaired)"}
     router_mod.Timer = _NoTimer
     try:
@@ -368,23 +568,37 @@ def run(ctx):
             check_lifetimes(ctx, capped, sorted(set(corp)))
             ctx.cover("corpus_cases", len(corp))
             check_lifetimes(ctx, capped, lifetime_values(ctx))
+            check_fractional(ctx, capped)
             check_codes(ctx)
             check_router(ctx, capped, clock)
             check_guard(ctx, clock)
+            check_indication(ctx, clock)
+            check_secured_shb(ctx, clock)
     finally:
         router_mod.Timer = threading.Timer
 
 
 def search(ctx):
-    """obligation/correspondence broken: widen the real-code search (3x volume, all boundaries)"""
+    """obligation/correspondence broken: widen the real-code search (3x volume, all boundaries; then every hop limit x
+    transport through the Router, the guard pairs and the indication sweep), judged by the oracle only"""
     capped = detect_capped()
     vals = sorted({ctx.rng.randrange(0, 7_000_001) for _ in range(60000)} | set(REPRESENTABLE) |
                   {max(0, r - 1) for r in REPRESENTABLE} | {r + 1 for r in REPRESENTABLE})
     ok = ctx.model_ok
     ctx.model_ok = False   # search judges the real code with the oracle only
+    old_timer = router_mod.Timer
+    router_mod.Timer = _NoTimer
     try:
         check_lifetimes(ctx, capped, vals)
+        if not ctx.violations:
+            check_fractional(ctx, capped)
+            check_codes(ctx)
+            with rs.VClock(1_700_000_000_000) as clock:
+                check_router(ctx, capped, clock)
+                check_guard(ctx, clock)
+                check_indication(ctx, clock)
     finally:
+        router_mod.Timer = old_timer
         ctx.model_ok = ok
 
 
@@ -397,12 +611,51 @@ def replay(ctx, obj):
         bad = oracle_lifetime(ms, r[2])
         print(f"request {ms} ms -> {r} : {bad or 'ok'}")
         return bool(bad)
+    if kind == "lifetime_f":
+        import math
+        ms = case["ms"]
+        bh = BasicHeader.initialize_with_mib_request_and_rhl(MIB(), ms / 1000.0, 1)
+        got = bh.lt.get_value_in_millis()
+        bad = got > ms or got != greatest_representable(math.floor(ms)) or (ms >= 50 and got == 0)
+        print(f"request {ms} ms -> {got} ms: {'violated' if bad else 'ok'}")
+        return bad
     if kind == "code":
         code = case["code"]
         bh = BasicHeader.decode_from_bytes(bytes([0x11, 0, code, 7]))
         ok = bh.lt.get_value_in_millis() == (code >> 2) * UNITS[code & 3] and bh.encode_to_bytes()[2] == code
         print(f"code {code} -> {bh.lt} ok={ok}")
         return not ok
+    if kind == "ind":
+        router_mod.Timer = _NoTimer
+        try:
+            with rs.VClock(1_700_000_000_000) as clock:
+                pkt = emit(case["site"], 5, 10, 3000, 60, clock)
+                bad, rep = judge_indication(case["site"], case["code"], indication_of(pkt, case["code"], clock), pkt[3])
+                print(f"{case['site']} LT octet {case['code']:#04x}: reported {rep} s: {bad or 'ok'}")
+                return bool(bad)
+        finally:
+            router_mod.Timer = threading.Timer
+    if kind == "secured_shb":
+        class _C:   # minimal ctx stand-in collecting violations
+            def __init__(self):
+                self.v = []
+            def violation(self, what, case, fid=None):
+                self.v.append(what)
+            def note(self, x):
+                print(x)
+            def cover(self, *a):
+                pass
+            def evals(self, *a):
+                pass
+        c = _C()
+        router_mod.Timer = _NoTimer
+        try:
+            with rs.VClock(1_700_000_000_000) as clock:
+                check_secured_shb(c, clock)
+        finally:
+            router_mod.Timer = threading.Timer
+        print(c.v or "ok")
+        return bool(c.v)
     if kind in ("router", "guard"):
         sub = Ctx_like(ctx)
         router_mod.Timer = _NoTimer
@@ -415,7 +668,7 @@ def replay(ctx, obj):
                         return True
                     rhl, mhl = pkt[3], pkt[10]
                     lt_ms = BasicHeader.decode_from_bytes(pkt[0:4]).lt.get_value_in_millis()
-                    want_ms = ms if (ms is not None and t in ("shb", "gbc", "gac", "guc")) else s * 1000
+                    want_ms = ms if (ms is not None and t in REQUEST_BUILT) else s * 1000
                     bad = oracle_hops(t, h, d, rhl, mhl) + oracle_lifetime(want_ms, lt_ms)
                     print(f"{case['case']} -> rhl={rhl} mhl={mhl} lt={lt_ms}: {bad or 'ok'}")
                     return bool(bad)
